@@ -17,3 +17,22 @@ Proof. exact read_without_rw_fails. Qed.
 
 Print Assumptions C04_reader_is_rw.
 Print Assumptions C04_no_rw_replica_read_fails.
+
+(** the executable trace oracle that the correspondence run evaluates on the real controller's
+    observations accepts every trace of the model (single-request histories).  [c04_step] as written
+    needs the history to be a possible observation (the model validates the observed read order and
+    answers RInvalid otherwise: witness [c04_false_on_invalid_order]); [c04_step'] = [c04_step] made
+    vacuous on an RInvalid result holds on every history *)
+From Jiva Require Import Ctl.Corr Ctl.Oracles Ctl.OracleProofs2.
+
+Theorem C04_oracle_accepts_model_traces : forall es rf0 n w0, (1 <= rf0)%nat -> forallb ev_wf es = true ->
+  no_invalid (init rf0 w0) es ->
+  walk (lift (c04_step rf0) nopair) 0 (obs0 rf0 n w0) (map One es) (trace n (init rf0 w0) (map One es)) = None.
+Proof. exact c04_oracle_model. Qed.
+
+Theorem C04_corrected_oracle_accepts_model_traces : forall es rf0 n w0, (1 <= rf0)%nat -> forallb ev_wf es = true ->
+  walk (lift (c04_step' rf0) nopair) 0 (obs0 rf0 n w0) (map One es) (trace n (init rf0 w0) (map One es)) = None.
+Proof. exact c04'_oracle_model. Qed.
+
+Print Assumptions C04_oracle_accepts_model_traces.
+Print Assumptions C04_corrected_oracle_accepts_model_traces.
